@@ -37,6 +37,10 @@ claim("C07",
       "agreement check over the evaluated query chain of GetRelationTuples (ORDER BY column = strict '>' cursor column = db tag of the token field; LIMIT = has-more threshold + 1; truncate-then-token order) and over the parsed traversal SELECT; finite-domain evaluation of the page-size normalisation; status-code resolution of every error returned for malformed pagination input; def-use check that internal consumers feed the returned token into the next call and loop to the empty token",
       "Decides that the keyset mechanics are self-consistent, that malformed tokens/sizes are client errors and that internal consumers read all pages; does not decide behaviour under concurrent writes beyond what a strict '>' on a unique key implies. Right level: cursor/limit/token agreement is a relation between code sites.")
 
+claim("C05",
+      "lexical/closure containment of every write statement in a Transaction literal; dataflow of contexts and connections inside the literal back to the literal's own ctx parameter; error-discipline must-pass analysis inside transaction literals; co-location of mapping and write in handler literals; single-literal rule for functions with several write operations",
+      "Decides that the transaction envelope is structurally complete (statements inside, on the transaction's connection and context, errors returned, one literal per multi-write function); does not decide isolation, popx commit/rollback or database crash behaviour. Right level: whether a statement runs inside/outside a transaction closure and on which connection is a static scoping fact.")
+
 for p in ["C04","C05","C06","C07","C08","C09","C11","C12","C13","C14","C16","C18","C19"]:
     na(p, NOTBUILT)
 na("C10", "semantic equivalence between the parser's output and TypeScript's grammar over all programs: precedence/associativity is not a code shape every correct parser shares; no sound structural necessary condition found (and the property is known to be violated: a||b&&c parses as (a||b)&&c), so a static green light would be misleading")
